@@ -11,6 +11,8 @@ pub mod c01;
 #[cfg(feature = "full")]
 pub mod c02;
 #[cfg(feature = "full")]
+pub mod c03;
+#[cfg(feature = "full")]
 pub mod c04;
 #[cfg(feature = "full")]
 pub mod c05;
@@ -57,7 +59,7 @@ macro_rules! drivers {
     };
 }
 drivers! {
-    "C01" => c01, "C02" => c02, "C04" => c04, "C05" => c05, "C06" => c06,
+    "C01" => c01, "C02" => c02, "C03" => c03, "C04" => c04, "C05" => c05, "C06" => c06,
     "C11" => c11, "C12" => c12, "C17" => c17,
 }
 
